@@ -224,6 +224,19 @@ type EmbFlattenedHoldsTagged struct { // flattened outer, tagged inner
 	M int `json:"m"`
 }
 
+// Unnamed composite types as fields (C16: TypeSchemas entries may be keyed by ANY reflect.Type, also unnamed ones).
+type UnnamedKinds struct {
+	Tags []string       `json:"tags"`
+	M    map[string]int `json:"m"`
+	Raw  []byte         `json:"raw"`
+	A    any            `json:"a"`
+	L    [2]float32     `json:"l"`
+	PS   *[]string      `json:"ps"`
+	An   struct {
+		Q int `json:"q"`
+	} `json:"an"`
+}
+
 // The same type several times.
 type Repeats struct {
 	A  Inner            `json:"a"`
